@@ -67,6 +67,12 @@ def _sub(ch: Chooser, tier: str, which: str):
             break
     case["family"] = fam
     if which == "Q":
+        _as_q(case, fam)
+    return case
+
+
+def _as_q(case: dict, fam: str) -> dict:
+    if True:
         names = declared_names(case["stmts"])
         mp = {n: "q_" + n for n in names}
         dx = 3 if fam == "far" else SHIFT
@@ -85,7 +91,18 @@ def _sub(ch: Chooser, tier: str, which: str):
 
 def gen_case(ch: Chooser, tier: str = "quick") -> dict:
     P = _sub(ch, tier, "P")
-    Q = _sub(ch, tier, "Q")
+    if ch.chance(1, 4):
+        # the same module instantiated twice: Q is P under other names (same signal types, same
+        # constants, same expressions), driven through a different history
+        Q = _as_q(copy.deepcopy(P), P["family"])
+        for st in Q.get("history") or []:
+            for k in list(st):
+                if isinstance(st[k], int) and not k.startswith("__"):
+                    st[k] = st[k] + ch.pick([1, -1, 3, 7, -10])
+        if not Q.get("history"):
+            Q["history"] = [{i["name"]: i["init"] + ch.pick([1, -1, 5]) for i in Q["inputs"]}]
+    else:
+        Q = _sub(ch, tier, "Q")
     order = [0] * len(P["stmts"]) + [1] * len(Q["stmts"])
     # seeded interleaving preserving each program's order (Fisher-Yates on the tag sequence)
     for i in range(len(order) - 1, 0, -1):
@@ -179,6 +196,14 @@ def run_case(case: dict) -> dict:
                 res["status"] = "excluded"
                 res["excluded_by"] = "crosstalk"
                 return res
+            # the bundle form of the same structure (a wire-merged bundle sharing its network with
+            # a foreign emitter), judged on each program's OWN build only
+            for sub, w_, o_ in ((P, wp, tw.obs[1]), (Q, wq, tw.obs[2])):
+                if sub["family"] == "c06" and c06.known_crosstalk(
+                        w_, o_, sub["stmts"], list(_containers(sub, w_).values()), anchors=True):
+                    res["status"] = "excluded"
+                    res["excluded_by"] = "crosstalk"
+                    return res
             from ..diagnose import crosstalk_sites
 
             labels = {n: k for k, v in tw.obs[0].inputs.items() for n in v}
@@ -203,14 +228,6 @@ def run_case(case: dict) -> dict:
                 res["status"] = "excluded"
                 res["excluded_by"] = "same-source-two-roles"
                 return res
-        if "const-cell-data" in excl:
-            for sub in (P, Q):
-                if sub["family"] == "c03":
-                    _d, cd, _e = c03._support(sub["stmts"])
-                    if any(not v for v in cd.values()):
-                        res["status"] = "excluded"
-                        res["excluded_by"] = "const-cell-data"
-                        return res
         probe(res, f"pair_{P['family']}_{Q['family']}")
         vp, vq = _inits(P), _inits(Q)
         cont = [(_containers(P, wc) | _containers(Q, wc)), _containers(P, wp), _containers(Q, wq)]
